@@ -17,7 +17,7 @@ RULE = ('Each run = one seeded record: 1 probe model or a Coupler of 2-3 probe m
         'states (python floats, numpy scalars, 1-D arrays, rank-2/3 arrays with own flatten), a scripted list of dt '
         'proposals (incl. 0, negative, inf, NaN, 1e-300, 1e300, values over 8 decades), optional stop requests, '
         '1-4 consecutive solve calls with seeded duration, start time, min/max step fractions and iterator. '
-        'Non-trivial = at least 2 accepted steps in some call; distinct = distinct record digest; behaviour signature = '
+        'A third of the couplers contain a sub-model whose own clock differs from the clock of the Coupler (solved on its own before); every 25th run couples a real PrecipitateModel with a real SinglePhaseModel. Non-trivial = at least 2 accepted steps in some call; distinct = distinct record digest; behaviour signature = '
         '(kind, iterators, adversarial proposal kinds used, stop fired, clamp-to-min / clamp-to-max / final-short-step observed).')
 ASSUMPTIONS = ['Resolution precondition: minDtFrac*dt_total >= 8 ulp(t0+dt_total) (below that no floating-point clock can advance).',
                'The probe model is a well-formed GenericModel apart from its dt proposals (it returns derivatives in the structure it supplied).',
